@@ -115,7 +115,7 @@ func lex(src string) ([]ctoken, error) {
 	var toks []ctoken
 	i := 0
 	ops := []string{"<==>", "==>", "::", "&&", "||", "==", "!=", "<=", ">=", "<<", ">>", "&^", "[]",
-		"+", "-", "*", "/", "%", "&", "|", "^", "<", ">", "!", "(", ")", "[", "]", ",", "?", ":", ".", "=", "#", "$", "{", "}"}
+		"+", "-", "*", "/", "%", "&", "|", "^", "<", ">", "!", "(", ")", "[", "]", ",", "?", ":", ".", "=", "#", "$", "{", "}", "~"}
 	for i < len(src) {
 		c := src[i]
 		switch {
@@ -316,6 +316,8 @@ func (p *parser) typeExpr() (TypeExpr, error) {
 			te.Prefix += "[]"
 		} else if p.accept("*") {
 			te.Prefix += "*"
+		} else if p.accept("~") {
+			te.Prefix += "~"
 		} else if p.isOp("[") {
 			p.next()
 			if err := p.expect("]"); err != nil {
@@ -503,6 +505,13 @@ type SiteSpec struct {
 	Pattern string // e.g. "call os.Rename#0"
 	Asserts []Clause
 	Ghost   []GhostUpd
+	Uses    []Clause // lemma applications: Name(args...)
+	Order   []SiteAction // all of the above in textual order
+}
+
+type SiteAction struct {
+	Kind string // assert | use | ghost
+	Idx  int    // index into the respective list
 }
 
 type GhostUpd struct {
@@ -538,6 +547,7 @@ type Lemma struct {
 	IndVar  string
 	IndBase Expr
 	Uses    []string
+	Generalize []string // variables re-quantified inside the induction hypothesis
 }
 
 type FuncContract struct {
@@ -793,6 +803,8 @@ func (cs *ContractSet) loadContractFile(path, pkgPath string) error {
 				var what string
 				if i := strings.Index(rest, " assert "); i >= 0 {
 					idx, what = i, "assert"
+				} else if i := strings.Index(rest, " use "); i >= 0 {
+					idx, what = i, "use"
 				} else if i := strings.Index(rest, " ghost "); i >= 0 {
 					idx, what = i, "ghost"
 				} else {
@@ -816,6 +828,15 @@ func (cs *ContractSet) loadContractFile(path, pkgPath string) error {
 						return err
 					}
 					ss.Asserts = append(ss.Asserts, c)
+					ss.Order = append(ss.Order, SiteAction{"assert", len(ss.Asserts) - 1})
+				} else if what == "use" {
+					// lemma names may contain '-': normalise for the expression parser
+					c, err := mkClause(strings.Replace(body, "-", "_", strings.Count(body[:strings.Index(body+"(", "(")], "-")), ln.no)
+					if err != nil {
+						return err
+					}
+					ss.Uses = append(ss.Uses, c)
+					ss.Order = append(ss.Order, SiteAction{"use", len(ss.Uses) - 1})
 				} else {
 					eq := strings.Index(body, "=")
 					if eq < 0 {
@@ -826,6 +847,7 @@ func (cs *ContractSet) loadContractFile(path, pkgPath string) error {
 						return err
 					}
 					ss.Ghost = append(ss.Ghost, GhostUpd{strings.TrimSpace(body[:eq]), c})
+					ss.Order = append(ss.Order, SiteAction{"ghost", len(ss.Ghost) - 1})
 				}
 			default:
 				return fail(fmt.Errorf("unknown clause %q", kw))
@@ -928,6 +950,9 @@ func parseLemma(rest, path string, no int) (*Lemma, error) {
 			}
 		case "uses":
 			lm.Uses = append(lm.Uses, strings.Split(f[i+1], ",")...)
+			i++
+		case "generalizing":
+			lm.Generalize = append(lm.Generalize, strings.Split(f[i+1], ",")...)
 			i++
 		}
 	}
